@@ -361,3 +361,100 @@ PLAN["C17"] = dict(
         dict(test="TestC17ViaRapid", checks=300000, shards=4, counts=["C17.viabr"], timeout=3000),
     ],
 )
+
+PLAN["C14"] = dict(
+    technique="exhaustive enumeration (every string over the URI delimiter alphabet behind sip:/sips:/tel:, all scheme casings) + rapid generation/mutation, with a structural losslessness oracle and a reference split",
+    level_text=("Exploration with exhaustive parts: every string of <= 7 symbols (quick; <= 8 thorough) over ':@;?&=[].a1' behind "
+                "each scheme, all letter casings of the schemes, generated structured URIs, mutated URIs and random delimiter "
+                "soups. On accept: consumed == length; components disjoint and in the order scheme,user,password,host,port,"
+                "params,headers; every gap (and the tail) consists exactly of the delimiters that belong there, hence the "
+                "concatenation reproduces the input; differential against an independent reference split for inputs with at "
+                "most one '@' whose first byte after the scheme is ordinary and whose user part has no brackets; PortNo equals "
+                "the decimal port. tel: => empty host, number as user (tel: with '@' only has to return). On reject: error "
+                "position inside the input."),
+    level_note="Structural oracle needs no per-input expectation; the reference split is hand-written and applied only inside the stated domain restrictions (DESIGN.md section 4 C14).",
+    rule=("case = URI text; non-trivial = accepted with >= 3 non-empty components or a ';' '?' ':' before the '@'; enumerated "
+          "strings distinct by construction, generated ones by hash"),
+    quick=[
+        dict(kind="enum", test="TestC14Enum", solo=True, timeout=900, env={"VERIF_C14_LEN": 7}),
+        dict(test="TestC14Rapid", checks=50000, shards=8, counts=["C14.uri"]),
+    ],
+    thorough=[
+        dict(kind="enum", test="TestC14Enum", solo=True, timeout=3000, env={"VERIF_C14_LEN": 8}),
+        dict(test="TestC14Rapid", checks=600000, shards=12, counts=["C14.uri"], timeout=3000),
+    ],
+)
+
+PLAN["C15"] = dict(
+    technique="algebraic-law PBT: reflexivity, symmetry, flag monotonicity over all 64 skip-flag sets, equivalence of permuted/re-cased variants, single-component changes, agreement of the three entry points and the handed-back parsed URIs",
+    level_text=("Exploration: structured URIs with well-formed, duplicate-free parameter and header lists; pairs = (u, equivalent "
+                "variant: parameters/headers permuted, scheme/host/parameter names and values/header names re-cased), (u, u with "
+                "exactly one component changed: user, user case, password, password case, host, port, scheme, a common parameter "
+                "value, header value/name/added header, a one-sided user/ttl/method/maddr parameter), unrelated pairs; for every "
+                "pair all 64 flag sets in both argument orders: reflexive, symmetric, monotone in the flags; variants equal; a "
+                "changed component => different unless its skip flag is set and equal when it is; URIRawCmp == URIParseCmp == "
+                "URICmp o ParseURI and r1/r2 == ParseURI of each argument."),
+    level_note=_MODEL_NOTE + " Nothing is asserted about a parameter other than user/ttl/method/maddr present on one side only.",
+    rule=("case = (URI spec a, URI spec b, relation); non-trivial = both parse and carry >= 1 parameter or header; distinct by case hash"),
+    quick=[dict(test="TestC15Rapid", checks=10000, shards=12, counts=["C15.cmp"])],
+    thorough=[dict(test="TestC15Rapid", checks=100000, shards=16, counts=["C15.cmp"], timeout=3000)],
+)
+
+PLAN["C18"] = dict(
+    technique="model-based PBT + small-scope enumeration: relocation of every accepted URI to generated offsets (incl. the 65,535 limit) with every span length, views checked against their definitions",
+    level_text=("Exploration with exhaustive parts: every accepted URI of the C14 small scope (<= 5 symbols quick, <= 6 thorough) x "
+                "every span 0..len+1 x target offsets 0/1/7; generated and mutated structured URIs x offsets 0, 1..16, up to "
+                "60,000 and 65,535-len x spans below, at and above the URI length. span >= len => AdjustOffs returns true and "
+                "every component denotes the same bytes in a buffer holding the URI at the target; span < len => false, no "
+                "panic, structure unchanged; Long() = scheme .. last non-empty component, Flat() its text, Short() ends at "
+                "port/host (user for tel:) and is a prefix of Long(), Truncate() empties exactly Params and Headers."),
+    level_note=_MODEL_NOTE + " tel: URIs containing '@' are outside the stated form and skipped.",
+    rule=("case = (URI text, target offset, span length); non-trivial = the URI is accepted with >= 3 non-empty components and "
+          "the target offset is > 0; rejected URIs are skipped (counted as skipped); distinct by hash / by construction"),
+    quick=[
+        dict(kind="enum", test="TestC18Enum", solo=True, timeout=900),
+        dict(test="TestC18Rapid", checks=40000, shards=8, counts=["C18.reloc"]),
+    ],
+    thorough=[
+        dict(kind="enum", test="TestC18Enum", solo=True, timeout=3000, env={"VERIF_C18_LEN": 6}),
+        dict(test="TestC18Rapid", checks=400000, shards=12, counts=["C18.reloc"], timeout=3000),
+    ],
+)
+
+PLAN["C19"] = dict(
+    technique="metamorphic PBT: a generated request and variants that differ only in non-fingerprinted parts (fillers, repeated fingerprinted headers, URIs/display names/CSeq number/Via host, chunking, capacity) must have identical signatures; header-order sequence against a reference; replies; truncation",
+    level_text=("Exploration: requests built from a permutation of a 2..8 subset of the eight fingerprinted headers in long or "
+                "compact form with fillers (unknown and known-but-not-fingerprinted headers) in between; 1..4 variants each: fresh "
+                "fillers, fingerprinted headers repeated later with other values/forms, all non-fingerprinted parts re-drawn "
+                "while Call-ID, From-tag and first-Via branch are kept; parsed under a chunk schedule with all headers fitting. "
+                "Oracle: MsgSig of every variant == MsgSig of the base; HdrSig == reference sequence (first occurrences in order, "
+                "Contact only for INVITE, compact bit from a one-letter name), HdrSigLen <= 8, method = table lookup; String() "
+                "matches the documented shape; replies => ErrHdrEmpty; header capacity < N => the same signature or ErrHdrTrunc."),
+    level_note=_MODEL_NOTE,
+    rule=("case = (method, base header list, variant header lists, schedule, capacity); non-trivial = >= 3 fingerprinted "
+          "headers and >= 1 variant; distinct by case hash"),
+    quick=[dict(test="TestC19Rapid", checks=6000, shards=12, counts=["C19.sig"])],
+    thorough=[dict(test="TestC19Rapid", checks=60000, shards=16, counts=["C19.sig"], timeout=3000)],
+)
+
+PLAN["C20"] = dict(
+    technique="exhaustive enumeration against an independent reference matcher (all strings over {0,1,2,5,6,'.',x} and over all digits + '.'), plus rapid strings with embedded valid/near-valid addresses",
+    level_text=("Exploration with exhaustive parts: every string of <= 9 symbols (quick; <= 11 thorough) over {0,1,2,5,6,.,x}, every "
+                "string of <= 6 (7) symbols over the ten digits and '.', every string of <= 5 (6) symbols over digits/'.'/x behind "
+                "'1.2.'; generated strings of several hundred bytes with embedded valid and near-valid addresses. ContainsIP4 "
+                "true <=> some substring is four dot-separated groups of 1-3 digits <= 255 (backtracking reference matcher); "
+                "the reported span is such an address and its groups equal the returned bytes; IP4Prefix result, stop offset, "
+                "verdict (end / digit / other / truncated / bad) and bytes equal a greedy reference scanner; GetCallIDSig sets "
+                "exactly the IP-position flag implied by the reported span and none when there is no address and no ':'."),
+    level_note="Reference matcher and scanner are hand-written, independent of ip_prefix.go (recursive group splitter / greedy group reader).",
+    rule=("case = text; non-trivial = the text has >= 3 dots and a near-miss group (3-digit value 250..299 or a 4-digit run); "
+          "enumerated strings distinct by construction, generated by hash"),
+    quick=[
+        dict(kind="enum", test="TestC20Enum", solo=True, timeout=900, env={"VERIF_C20_LEN": 9, "VERIF_C20_DIGLEN": 6}),
+        dict(test="TestC20Rapid", checks=50000, shards=8, counts=["C20.ip4"]),
+    ],
+    thorough=[
+        dict(kind="enum", test="TestC20Enum", solo=True, timeout=3000, env={"VERIF_C20_LEN": 11, "VERIF_C20_DIGLEN": 7}),
+        dict(test="TestC20Rapid", checks=600000, shards=12, counts=["C20.ip4"], timeout=3000),
+    ],
+)
